@@ -3,8 +3,14 @@ use crate::{ErrorCode, Packet, TransferOption};
 use std::cmp::max;
 use std::collections::HashMap;
 use std::error::Error;
+#[cfg(rs_tftpd_verif)]
+use crate::verif::{mpsc::Sender, net::UdpSocket};
+#[cfg(rs_tftpd_verif)]
+use std::net::SocketAddr;
+#[cfg(not(rs_tftpd_verif))]
 use std::net::{SocketAddr, UdpSocket};
 use std::path::{Path, PathBuf, MAIN_SEPARATOR};
+#[cfg(not(rs_tftpd_verif))]
 use std::sync::mpsc::Sender;
 use std::time::Duration;
 
